@@ -358,11 +358,18 @@ func (w *World) run(mk func(*Plan) Checker) {
 		s.worldGid = curGid()
 	}
 	redisemu.SimInstall(&redisemu.SimHooks{
-		Yield:       func(site string) { plantedAccess(); s.park(nil, site) },
-		BeforeLock:  func(mu *sync.Mutex, site string) { s.park(mu, site) },
-		AfterUnlock: s.afterUnlock,
-		TaskBegin:   s.taskBegin,
-		TaskEnd:     s.taskEnd,
+		Yield:      func(site string) { plantedAccess(); s.park(nil, site) },
+		BeforeLock: func(mu *sync.Mutex, site string) { s.park(mu, site) },
+		AfterUnlock: func(mu *sync.Mutex, site string) {
+			s.afterUnlock(mu, site)
+			if w.plan.Knobs.UnlockYield {
+				// what a command does right after it has let go of a lock (with
+				// what it read under it) is interleaved with everybody else
+				s.park(nil, "unlocked")
+			}
+		},
+		TaskBegin: s.taskBegin,
+		TaskEnd:   s.taskEnd,
 		Recover: func(v any, stack []byte) {
 			s.recordPanic(fmt.Sprint(v), string(stack))
 		},
